@@ -2,6 +2,8 @@
 import collections
 import random
 
+import networkx as nx
+
 from ..gen import mol as M
 from ..oracles import V
 from .. import contracts
@@ -40,6 +42,8 @@ def cases(seed, tier, shard, nshards):
             v['features'] = sorted(set(v['features']) | {'fault_order_ge1'})
         made += 1
         yield v
+        if not fault and rng.random() < 0.15:
+            yield dict(v, reuse=True, ctor='from_graph', sub=rng.randrange(10 ** 6), features=sorted(set(v['features']) | {'base_graph_object_reused'}))
 
 
 def owned(cg, aa):
@@ -58,7 +62,50 @@ def owned(cg, aa):
     return out
 
 
+def run_reuse(case):
+    """history on one networkx base graph: resolved while its fragment-less nodes are legal, then edited, then resolved again"""
+    from cgsmiles import MoleculeResolver
+    contracts.clear()
+    viol = []
+    txt = MC.case_text(case)
+    truth = MC.truth_from_json(case['truth'])
+    base = nx.Graph()
+    for n, name in case['base_graph']['nodes']:
+        base.add_node(n, fragname=name)
+    for a, b, o in case['base_graph']['edges']:
+        base.add_edge(a, b, order=o)
+    try:
+        cg, aa = MoleculeResolver.from_graph(case['frag_string'], base).resolve()
+        heavy, problems = M.collapse_h(aa)
+        if problems or not M.same_molecule(heavy, truth):
+            viol.append(V('c11.molecule_changed', f'{txt} -> {M.describe(heavy)}; expected {M.describe(truth)}'))
+        # second use of the same graph object: still the same molecule
+        cg, aa = MoleculeResolver.from_graph(case['frag_string'], base).resolve()
+        heavy, problems = M.collapse_h(aa)
+        if problems or not M.same_molecule(heavy, truth):
+            viol.append(V('c11.molecule_changed_on_reuse', f'{txt}: resolving the same base graph object a second time -> {M.describe(heavy)}; expected {M.describe(truth)}'))
+        # now one fragment-less node gets a real edge: must be rejected although the graph was resolved before
+        v = case['virtual'][case['sub'] % len(case['virtual'])]
+        nb = sorted(base[v])[0]
+        base.edges[v, nb]['order'] = 1 + case['sub'] % 3
+        for target in (base, cg):
+            try:
+                if target is cg:
+                    cg.edges[v, nb]['order'] = base.edges[v, nb]['order']
+                MoleculeResolver.from_graph(case['frag_string'], target).resolve()
+                viol.append(V('c11.fragmentless_node_accepted_on_reuse', f'{txt}: after the graph had been resolved once, the edge {v}-{nb} of the fragment-less node was given order '
+                              f'{base.edges[v, nb]["order"]} and the {"returned coarse graph" if target is cg else "same graph"} was resolved without error'))
+            except SyntaxError:
+                pass
+    except Exception as err:
+        viol.append(V('c11.exception.' + type(err).__name__, f'{txt} (graph reused) raised {type(err).__name__}: {err}'))
+    contracts.clear()
+    return {'violations': viol, 'nontrivial': True, 'sample': txt, 'cls': ('reuse', tuple(case['features']), case['nfrag'])}
+
+
 def run(case):
+    if case.get('reuse'):
+        return run_reuse(case)
     contracts.clear()
     viol = []
     txt = MC.case_text(case)
